@@ -111,8 +111,9 @@ class Freshness:
                     if s is not None:
                         return recv if s == RECV else s
                     return recv
-                for c in ('Factor', 'GraphicalModel'):
-                    if (c, last) in self.summary and (c == 'Factor' or U(f.value) == 'self'):
+                order_ = (cls, 'Factor', 'GraphicalModel') if U(f.value) == 'self' else ('Factor',)
+                for c in order_:
+                    if (c, last) in self.summary and (c == 'Factor' or U(f.value) == 'self') and not (U(f.value) == 'self' and c != cls and (cls, last) in self.summary):
                         s = self.summary[(c, last)]
                         if s == RECV:
                             return recv                       # hands out (a view of) the receiver's array: as private as the receiver
